@@ -37,6 +37,7 @@ class PeerLog(object):
 
     def __init__(self):
         self.by_serial = collections.defaultdict(list)
+        self.spoofs = collections.defaultdict(list)      # serial -> (type, idx, copy) of non-replies carrying REPLY_SERIAL
         self.closed = False
         self.unknown_serial_replies = 0
 
@@ -79,6 +80,13 @@ def judge(result, peer, closed_by_us_in_teardown=True):
     def check_reply(idx, serial, e, where, timeout_ms, t_sent_us, phase):
         """a reply (or local error) handed to the application for call idx"""
         rt, rs, name, m = e.get("rt"), e.get("rs"), e.get("name", ""), e.get("m", [])
+        if rt in (1, 4) and rs == serial and (rt, m[0] if m else None, m[1] if len(m) > 1 else None) in peer.spoofs.get(serial, []):
+            # a SIGNAL / METHOD_CALL is not a reply, whatever header fields it carries: the call has to wait for its
+            # reply or its timeout
+            F.append(Finding("completed-by-non-reply:" + ("signal" if rt == 4 else "method-call"),
+                             "%s of call %d (serial %d) yielded the peer's %s that merely carries REPLY_SERIAL %d"
+                             % (where, idx, serial, "SIGNAL" if rt == 4 else "METHOD_CALL", rs), idx))
+            return "non-reply"
         if rt not in (2, 3):
             F.append(Finding("reply-type", "%s of call %d yielded message type %r" % (where, idx, rt), idx))
             return "bad"
@@ -242,7 +250,14 @@ def judge(result, peer, closed_by_us_in_teardown=True):
         # ---- bounded progress: judged by the caller (needs the solo re-run); reported here as a condition
         if not cancelled and not completed_end and (is_finite(timeout_ms) or disc_seen):
             cnt["must-complete-but-incomplete"] += 1
-            if result.get("quiescent"):
+            if result.get("quiescent") == 2:
+                # connected, the peer's script is over (barrier passed), nothing is queued, and libdbus has no short timeout
+                # registered with the application any more: nothing is left that could complete this call
+                F.append(Finding("never-completed:timeout-lost", "call %d (serial %d, timeout %d ms) is incomplete although the connection is "
+                                 "healthy, everything the peer wrote has been dispatched and libdbus no longer has a timeout for it "
+                                 "registered (peer sent for this serial: replies %r, non-replies %r)"
+                                 % (idx, serial, timeout_ms, peer.by_serial.get(serial, []), peer.spoofs.get(serial, [])), idx))
+            elif result.get("quiescent"):
                 # not a matter of waiting: the connection is lost, its Disconnected signal was dispatched, nothing is
                 # queued and no timeout is registered - no event can complete this call any more
                 F.append(Finding("never-completed:after-disconnect", "call %d (serial %d, timeout %d ms) was outstanding when the "
@@ -255,6 +270,8 @@ def judge(result, peer, closed_by_us_in_teardown=True):
         ps = peer.by_serial.get(serial, [])
         if ps:
             pk = "+".join(sorted(set(("ret" if a == 2 else "err") + ("-dup" if d else "") for a, _, _, d in ps)))
+        if peer.spoofs.get(serial):
+            pk += "+spoof-" + "-".join(sorted(set("sig" if a == 4 else "call" for a, _, _ in peer.spoofs[serial])))
         sigs.append(("call", how, crel, tuple(sorted(observers)), "short" if is_finite(timeout_ms) else "inf", pk, peer_closed))
         cnt["completed:" + how] += 1
     if result.get("timer_remove_unknown"):
